@@ -653,26 +653,86 @@ func (c *Ctx) c34IsCmdUnsafe(p *c34Parser) {
 		b, ok2 := unparen(call.Args[1]).(*ast.Ident)
 		return ok1 && ok2 && info.ObjectOf(a) == safe && info.ObjectOf(b) == param
 	}
+	// the verdict may be kept in a bool local: `unsafe := true; for … { if f == sb { unsafe = false; break } };
+	// return unsafe` — the local is declared true, only ever assigned constants, and every `= false` is
+	// judged like a `return false`
+	var flag types.Object
+	if k := len(fd.Body.List); k > 0 {
+		if rs, isRet := fd.Body.List[k-1].(*ast.ReturnStmt); isRet && len(rs.Results) == 1 {
+			if id, isID := unparen(rs.Results[0]).(*ast.Ident); isID {
+				if v, isVar := info.ObjectOf(id).(*types.Var); isVar && v.Parent() != pk.Types.Scope() {
+					ds := localDefs(info, fd.Body)[v]
+					good := len(ds) >= 1
+					for _, d := range ds {
+						if _, isC := constBool(info, d); d == nil || !isC {
+							good = false
+						}
+					}
+					declTrue := false
+					ast.Inspect(fd.Body, func(x ast.Node) bool {
+						switch d := x.(type) {
+						case *ast.AssignStmt:
+							for i, l := range d.Lhs {
+								if li, ok := l.(*ast.Ident); ok && info.Defs[li] == types.Object(v) && len(d.Rhs) == len(d.Lhs) {
+									if b, isC := constBool(info, d.Rhs[i]); isC && b {
+										declTrue = true
+									}
+								}
+							}
+						case *ast.ValueSpec:
+							for i, nm := range d.Names {
+								if info.Defs[nm] == types.Object(v) && len(d.Values) == len(d.Names) {
+									if b, isC := constBool(info, d.Values[i]); isC && b {
+										declTrue = true
+									}
+								}
+							}
+						}
+						return true
+					})
+					if good && declTrue {
+						flag = v
+					}
+				}
+			}
+		}
+	}
+	isFlag := func(e ast.Expr) bool {
+		id, isID := unparen(e).(*ast.Ident)
+		return isID && flag != nil && info.ObjectOf(id) == flag
+	}
 	walkStack(fd.Body, func(n ast.Node, stack []ast.Node) bool {
-		rs, isRet := n.(*ast.ReturnStmt)
-		if !isRet || len(rs.Results) != 1 {
-			return true
+		flagCleared := false
+		if as, isAs := n.(*ast.AssignStmt); isAs && as.Tok == token.ASSIGN && len(as.Lhs) == 1 && len(as.Rhs) == 1 && isFlag(as.Lhs[0]) {
+			if b, isC := constBool(info, as.Rhs[0]); isC && !b {
+				flagCleared = true
+			}
 		}
-		if isNotContains(rs.Results[0]) {
-			// `return !slices.Contains(safeCmds, f)`: false exactly for members, true otherwise
-			nFalse++
-			nTrue++
-			return true
-		}
-		b, isConst := constBool(info, rs.Results[0])
-		if !isConst {
-			ok, why = false, "returns the non-constant "+c.src(rs.Results[0])
-			return true
-		}
-		if b {
-			nTrue++
-			// `return true` must not be conditional on membership
-			return true
+		if !flagCleared {
+			rs, isRet := n.(*ast.ReturnStmt)
+			if !isRet || len(rs.Results) != 1 {
+				return true
+			}
+			if isNotContains(rs.Results[0]) {
+				// `return !slices.Contains(safeCmds, f)`: false exactly for members, true otherwise
+				nFalse++
+				nTrue++
+				return true
+			}
+			if isFlag(rs.Results[0]) {
+				nTrue++ // true unless cleared; the clearing stores are judged below
+				return true
+			}
+			b, isConst := constBool(info, rs.Results[0])
+			if !isConst {
+				ok, why = false, "returns the non-constant "+c.src(rs.Results[0])
+				return true
+			}
+			if b {
+				nTrue++
+				// `return true` must not be conditional on membership
+				return true
+			}
 		}
 		nFalse++
 		// return false: needs fact f == <range value of safeCmds>
@@ -700,7 +760,8 @@ func (c *Ctx) c34IsCmdUnsafe(p *c34Parser) {
 				continue
 			}
 			isP := func(e ast.Expr) bool {
-				id, ok := unparen(e).(*ast.Ident)
+				// the parameter, directly or through a single-definition copy (`name := f`)
+				id, ok := localDefs(info, fd.Body).resolve1(info, e).(*ast.Ident)
 				return ok && info.ObjectOf(id) == param
 			}
 			isV := func(e ast.Expr) bool {
@@ -727,7 +788,7 @@ func (c *Ctx) c34IsCmdUnsafe(p *c34Parser) {
 	// last statement must be return true
 	if len(fd.Body.List) > 0 {
 		if rs, isRet := fd.Body.List[len(fd.Body.List)-1].(*ast.ReturnStmt); isRet && len(rs.Results) == 1 {
-			if b, isC := constBool(info, rs.Results[0]); (!isC || !b) && !isNotContains(rs.Results[0]) {
+			if b, isC := constBool(info, rs.Results[0]); (!isC || !b) && !isNotContains(rs.Results[0]) && !isFlag(rs.Results[0]) {
 				ok, why = false, "the fall-through result is not `true`: a name that is on no list is reported safe"
 			}
 		} else {
